@@ -51,4 +51,69 @@ theorem titlekey_recovered (E D : Bytes → Bytes → Bytes) (hED : ∀ k b, D k
     simp [h1, h2, UInt8.xor_assoc]
   · rw [List.getElem?_eq_none (by omega), List.getElem?_eq_none (by omega)]
 
+
+/-! ### the title key does not depend on what the engine loaded before -/
+section History
+open Engine
+theorem titlekey_history (D : Bytes → Bytes → Bytes) (e e' : Engine) (tk tid : Bytes) (idx : Nat)
+    (hd : e.dev = e'.dev) (x : Nat) (hx : e.keyX 0x3D = some x) (hx' : e'.keyX 0x3D = some x) :
+    (Engine.loadEncryptedTitlekey D e tk idx tid).2 = (Engine.loadEncryptedTitlekey D e' tk idx tid).2 ∧
+    ((Engine.loadEncryptedTitlekey D e tk idx tid).2 = none →
+      (Engine.loadEncryptedTitlekey D e tk idx tid).1.normal 0x40 =
+        (Engine.loadEncryptedTitlekey D e' tk idx tid).1.normal 0x40) := by
+  unfold Engine.loadEncryptedTitlekey
+  by_cases h0 : e.dev = true ∧ idx = 0
+  · have h0' : e'.dev = true ∧ idx = 0 := by rw [← hd]; exact h0
+    simp only [h0, h0', and_self, if_true]
+    have hk : ∀ g : Engine, (g.setNormal 0x3D Engine.devCommonKey0).cipherKey 0x3D = .ok Engine.devCommonKey0 := by
+      intro g; simp [Engine.cipherKey, Engine.setNormal, Engine.upd]
+    simp only [hk]
+    split <;> (try split) <;> simp [Engine.setNormal, Engine.upd]
+  · have h0' : ¬ (e'.dev = true ∧ idx = 0) := by rw [← hd]; exact h0
+    simp only [h0, h0', if_false]
+    cases hc : commonKeyY[idx]? with
+    | none => simp
+    | some ky =>
+      simp only
+      have hk : ∀ g : Engine, g.keyX 0x3D = some x →
+          (g.setKeyslot false 0x3D ky true).cipherKey 0x3D = .ok (keygenSlot 0x3D x ky) := by
+        intro g hg; simp [Engine.cipherKey, Engine.setKeyslot, Engine.upd, hg]
+      simp only [hk e hx, hk e' hx']
+      split <;> (try split) <;> simp [Engine.setNormal, Engine.upd]
+theorem load_keeps_x (D : Bytes → Bytes → Bytes) (e : Engine) (tk tid : Bytes) (idx : Nat) :
+    (Engine.loadEncryptedTitlekey D e tk idx tid).1.keyX = e.keyX ∧
+    (Engine.loadEncryptedTitlekey D e tk idx tid).1.dev = e.dev := by
+  unfold Engine.loadEncryptedTitlekey
+  by_cases h0 : e.dev = true ∧ idx = 0
+  · simp only [h0, and_self, if_true]
+    split <;> (try split) <;> (try split) <;> simp [Engine.setNormal, h0.1]
+  · simp only [h0, if_false]
+    cases hc : commonKeyY[idx]? with
+    | none => simp
+    | some ky =>
+      simp only
+      have h1 : (e.setKeyslot false 0x3D ky true).keyX = e.keyX ∧ (e.setKeyslot false 0x3D ky true).dev = e.dev := by
+        unfold Engine.setKeyslot; simp only [Bool.false_eq_true, if_false, if_true]; split <;> simp
+      split <;> (try split) <;> (try split) <;> simp [Engine.setNormal, h1]
+
+theorem ticket_keeps_x (D : Bytes → Bytes → Bytes) (e : Engine) (t : Bytes) :
+    (Engine.loadFromTicket D e t).1.keyX = e.keyX ∧ (Engine.loadFromTicket D e t).1.dev = e.dev := by
+  unfold Engine.loadFromTicket
+  split
+  · simp
+  · exact load_keeps_x D e _ _ _
+
+theorem tickets_keep_x (D : Bytes → Bytes → Bytes) (prior : List Bytes) (e : Engine) :
+    (prior.foldl (fun g t => (Engine.loadFromTicket D g t).1) e).keyX = e.keyX ∧
+    (prior.foldl (fun g t => (Engine.loadFromTicket D g t).1) e).dev = e.dev := by
+  induction prior generalizing e with
+  | nil => simp
+  | cons t ts ih =>
+    simp only [List.foldl_cons]
+    have := ih (Engine.loadFromTicket D e t).1
+    have h2 := ticket_keeps_x D e t
+    exact ⟨this.1.trans h2.1, this.2.trans h2.2⟩
+
+end History
+
 end Pyctr
